@@ -275,6 +275,9 @@ def perform(env, slot, op):
             pkt = cls(**{k: env.build(v) for k, v in op[2]})
             slot["pkt"] = pkt
             return ("new", env.snap(pkt))
+        if kind == "ADOPT":
+            slot["pkt"] = env.REG[op[1]]       # the very object the user passed to Ref(...) when declaring the class
+            return ("adopted", env.snap(slot["pkt"]))
         if kind == "PARSE":
             cls = env.REG[op[1]]
             slot["pkt"] = None
@@ -336,6 +339,9 @@ def gen_op(env, rec, ch, u, force=None):
     rawgen = decls.BY_NAME[rec["decl"]]["roots"][rec["root"]]
     if force is not None:
         k = force
+    elif rec["pkt"] is None and rec.get("adopt") and not rec.get("adopted"):
+        rec["adopted"] = True
+        return ("ADOPT", rec["adopt"])
     elif rec["pkt"] is None:
         k = ch.weighted("create-op", [1, 1])
     else:
@@ -620,7 +626,7 @@ class ThreadEngine(Engine):
                        "CPython threads (one runnable at a time)"]
     stub_components = ["the OS thread scheduler (replaced by the baton: the Chooser decides every switch)"]
     expected_probes = ["two-ops-in-flight", "same-class-two-threads", "aborted-parse-then-bystander-op", "whole-op-interleaving",
-                       "generated-path", "generic-path", "funclevel-decl", "duel-sweeps"]
+                       "generated-path", "generic-path", "funclevel-decl", "duel-sweeps", "prototype-instance-mutated"]
 
     def init_worker(self, tree, wdir):
         self.tree = tree
@@ -651,7 +657,7 @@ class ThreadEngine(Engine):
     def _gen_packet(self, pdir, modname, source, rec, nops, ch, u, last=None):
         """generate the operations of one packet against its solo twin; fills ops / twin"""
         tenv = Env(self.tree, pdir, modname, source, write=False)
-        slot = {"pkt": None, "decl": rec["decl"], "root": rec["root"]}
+        slot = {"pkt": None, "decl": rec["decl"], "root": rec["root"], "adopt": rec.get("adopt")}
         ops, twin = [], []
         for i in range(nops):
             op = gen_op(tenv, slot, ch, u, force=(last if (last is not None and i == nops - 1) else None))
@@ -685,6 +691,8 @@ class ThreadEngine(Engine):
         actors = [Actor(i) for i in range(nact)]
         packets = []
         shared_root = roots[ch.draw("shared-root", len(roots))]
+        protos_left = [(n_, pr) for n_ in names for pr in decls.BY_NAME[n_]["protos"]]
+        protos_left = [pr for _, pr in protos_left]
         for a in actors:
             mine = []
             for si in range(1 + ch.weighted("n-packets", [3, 2, 1])):
@@ -692,6 +700,11 @@ class ThreadEngine(Engine):
                     break
                 root = shared_root if (len(packets) < 2 or ch.chance("same-class", 1, 2)) else roots[ch.draw("root", len(roots))]
                 rec = {"label": "a%dp%d" % (a.idx, si), "decl": root[0], "root": root[1], "owner": a.idx}
+                if protos_left and len(packets) >= 1 and ch.chance("adopt-prototype-instance", 1, 3):
+                    # this "packet" is the instance the user passed to Ref(...): it is mutated like any other packet,
+                    # and nobody else's defaults may notice
+                    rec["adopt"] = protos_left.pop(ch.draw("which-prototype", len(protos_left)))
+                    st["probe:prototype-instance-mutated"] += 1
                 self._gen_packet(pdir, modname, source, rec, 1 + ch.draw("n-ops", 5 if len(mine) else 8), ch, u)
                 packets.append(rec)
                 mine.append(rec)
@@ -867,6 +880,8 @@ def _abstract(op):
         return (op[0], op[1])
     if op[0] == "NEW":
         return ("NEW", tuple(k for k, _ in op[2]))
+    if op[0] == "ADOPT":
+        return op
     return op
 
 
